@@ -83,9 +83,13 @@ class Ctx:
             if os.path.abspath(src) != os.path.abspath(dst):
                 shutil.copy(src, dst)
         meta = tempfile.mkdtemp(prefix="meta-", dir=self.scratch)
-        cmd = ["timeout", str(timeout), "java", "-XX:+UseParallelGC"]
+        # measured here: SerialGC is the fastest for the small models (ParallelGC
+        # with many GC threads burns system time); big runs pass heap= explicitly
+        cmd = ["timeout", str(timeout), "java"]
         if heap:
-            cmd.append("-Xmx" + heap)
+            cmd += ["-XX:+UseParallelGC", "-XX:ParallelGCThreads=4", "-Xmx" + heap]
+        else:
+            cmd += ["-XX:+UseSerialGC", "-Xmx6g"]
         cmd.append("-Xss" + (stack or "64m"))
         cmd += ["-cp", "/opt/veriftools/tla/tla2tools.jar:/opt/veriftools/tla/CommunityModules-deps.jar",
                 "tlc2.TLC", "-metadir", meta, "-config", cfg, "-noGenerateSpecTE"]
